@@ -176,15 +176,74 @@ func nsCalls(baseName string) []fsx.Call {
 	return cs
 }
 
+// fixtureFileSize is the length of the regular file the pool opens (/d/f and its
+// link /d/h hold "data", sys.go): the "current size" of the argument tuples below.
+const fixtureFileSize = 4
+
+// fileCalls is the File method alphabet: every method with arguments that do
+// something, AND with the argument tuples that do NOTHING or only QUERY
+// (fileNoopCalls). The letters are the same in every plan, history and handle
+// programme (as the failing call F, as the call G that follows it, as "pre" in
+// the thorough tier).
 func fileCalls() []fsx.Call {
-	return []fsx.Call{
+	return append([]fsx.Call{
 		{Op: "Read", N: 4}, {Op: "Read", N: 0}, {Op: "ReadAt", N: 2, M: 1},
 		{Op: "Write", Data: "XY"}, {Op: "WriteAt", Data: "Z", M: 1}, {Op: "WriteString", Data: "w"},
 		{Op: "Seek", N: 0, M: 0}, {Op: "Seek", N: 1, M: 1}, {Op: "Seek", N: -1, M: 2},
 		{Op: "Truncate", N: 2}, {Op: "Chmod", Perm: 0o600}, {Op: "Chown", N: 3, M: 3}, {Op: "Chdir"},
 		{Op: "Sync"}, {Op: "Stat"}, {Op: "ReadDir", N: -1}, {Op: "ReadDir", N: 1},
 		{Op: "Readdirnames", N: -1}, {Op: "Readdirnames", N: 1}, {Op: "Close"}, {Op: "Name"},
+	}, fileNoopCalls()...)
+}
+
+// fileNoopCalls: the argument values of a method for which the call changes
+// nothing - it only reports (the offset, the size), transfers zero bytes, or sets
+// what is already there. General lesson: a wrapper is tempted to single these
+// values out with a shortcut placed BEFORE its own work ("the offset does not
+// move, just ask the base", "nothing to write, return 0, nil", "already that
+// size") - and its own work is exactly what the property is about: the failure
+// function must be consulted for EVERY call of the method, and an injected error
+// returned, whether or not the call would have had an effect. An alphabet made
+// only of argument tuples that move, transfer or change something never enters
+// such a branch. So each method with a numeric or buffer argument appears also
+// with its neutral element:
+//
+//	Seek(0, SeekCurrent)   "tell": the offset is reported, not moved
+//	Seek(0, SeekEnd)       "size": no displacement from the reference point
+//	                       (Seek(0, SeekStart) on a fresh handle is in the list above)
+//	Truncate(current size) the file already has that length
+//	ReadAt(n, off=size)    nothing left to read at the current size
+//	ReadAt(0, off=0)       empty buffer (Read(0) is in the list above)
+//	Write("")              empty buffer
+//	ReadDir(0)             0 = "no limit", the value a "n <= 0" branch tests for
+//	Readdirnames(0)        besides the -1 above
+func fileNoopCalls() []fsx.Call {
+	return []fsx.Call{
+		{Op: "Seek", N: 0, M: 1}, {Op: "Seek", N: 0, M: 2},
+		{Op: "Truncate", N: fixtureFileSize},
+		{Op: "ReadAt", N: 2, M: fixtureFileSize}, {Op: "ReadAt", N: 0, M: 0},
+		{Op: "Write", Data: ""},
+		{Op: "ReadDir", N: 0}, {Op: "Readdirnames", N: 0},
 	}
+}
+
+func noopStrings() string {
+	var ss []string
+	for _, c := range fileNoopCalls() {
+		ss = append(ss, fileCallString(c))
+	}
+
+	return strings.Join(ss, ", ")
+}
+
+func isNoopFileCall(c fsx.Call) bool {
+	for _, n := range fileNoopCalls() {
+		if n == c {
+			return true
+		}
+	}
+
+	return false
 }
 
 func poolOpens(thru string) []fsx.Call {
